@@ -94,8 +94,17 @@ func VerifC04Acks() {
 		consumers:   make(map[string]*groupMember),
 		isLeading:   true,
 	}
+	// the in-sync set the partition starts with: all replicas, or (as after a
+	// restore from a snapshot taken when followers were out of sync) the leader only
+	isrAtStart := replicas
+	if rf > 1 && vChoose(2) == 1 {
+		isrAtStart = replicas[:1]
+		vCover("starts-below-full-isr")
+	}
 	for _, r := range replicas {
 		p.replicas[r] = struct{}{}
+	}
+	for _, r := range isrAtStart {
 		p.isr[r] = &replica{offset: -1}
 	}
 	p.minISR = 1 + vChoose(rf)
